@@ -258,9 +258,13 @@ def _unshift(db, chk):
             chk.ob(rule, f"convert_time_series_to_events (name column present={has_name}): one normal path", None, where, found=len(runs))
             continue
         r = runs[0]
-        E = next((v for v in r.env.values() if isinstance(v, Frame) and v.has("ph") and v.base == S), None)
+        cand = [v for v in r.env.values() if isinstance(v, Frame) and v.has("ph")]
+        E = next((v for v in cand if v.base == S), None)
+        removed = [e for e in r.events if e["kind"] in ("drop_duplicates", "filter", "dropna", "head", "take") and e["func"].endswith("convert_time_series_to_events")]
+        chk.ob(rule, f"[name col={has_name}] every row of the series becomes exactly one counter event (no row removal / de-duplication in the conversion)", (E is not None and E.rows == T.TRUE and not removed) if cand else None, where,
+               found=[f"{e['kind']} at line {e.get('line')}" + (f" subset={T.show(e['subset'])[:60]}" if e.get("subset") is not None else "") for e in removed] or ("all rows" if E is not None else "frame re-based"),
+               accepted="events_df = series[[...]].copy() with all rows", why="de-duplicating on (pid, name, ts) collapses the samples of different streams at the same microsecond: the file no longer reproduces the per-stream series")
         if not isinstance(E, Frame):
-            chk.ob(rule, "events frame built", None, where)
             continue
         check_term(chk, rule, f"[name col={has_name}] counter event ts = series ts + the stored alignment shift", where, E.col("ts"),
                    [T.add(T.col(S, "ts"), ("attr", ("obj", "self"), "min_ts"))], "counter events must sit at the original, unshifted timestamps")
